@@ -37,6 +37,13 @@ def source(kind, k, shift):
         return ("import builtins\n\n\ndef f(a):\n    builtins._vf_log.append((1, a))\n    return (1, a)\n\n\n"
                 "def g2(a):\n    builtins._vf_log.append((2, a))\n    return (2, a)\n\n\n"
                 "def g3(a):\n    builtins._vf_log.append((3, a))\n    return (3, a)\n")
+    if kind == "indent":
+        # the versions differ ONLY in the indentation of two lines (inside / after a loop)
+        k0 = (k - 1) % 4
+        ia, ib = ("        " if k0 & 1 else "    "), ("        " if k0 & 2 else "    ")
+        return pre + ("import builtins\n\n\ndef f(a):\n    v = 1\n    for _i in (0, 1):\n        v += 1\n" + ia + "v += 10\n"
+                      "    for _i in (0, 1):\n        v += 1\n" + ib + "v += 100\n"
+                      "    k = {115: 1, 125: 2, 215: 3, 225: 4}[v]\n    builtins._vf_log.append((k, a))\n    return (k, a)\n")
     if kind in ("nofile", "sourceless"):
         return pre + "import builtins\n\n\ndef f(a):\n    builtins._vf_log.append((%d, a))\n    return (%d, a)\n" % (k, k)
     raise ValueError(kind)
